@@ -263,7 +263,7 @@ Proof.
   - (* rename *)
     peel R W. eapply api_rename; eauto.
   - (* set_property *)
-    peel R W. destruct p; try discriminate P; (eapply api_set_property; [exact W | | | exact R]); intro X; try discriminate X; exact P.
+    peel R W. destruct p; try discriminate P; (eapply api_set_property; [exact W | | | exact R]); intro X; try (destruct X as [X|X]); try discriminate X; exact P.
   - (* unset_property *)
     peel R W. eapply api_unset_property; eauto.
 Qed.
